@@ -278,6 +278,8 @@ class Worker:
                 continue
             seen.add(k2)
             lf = self.by_name.get(name)
+            if lf is not None and line in lf.noop:
+                continue
             out.append({"fn": name, "line": line, "ay": y, "inst": inst, "hit": count[key],
                         "st": lf.stage_of(line) if lf else "try", "t": lf.t if lf else "Cli",
                         "k": lf.k if lf else "-", "rel": line - (lf.first if lf else 0)})
